@@ -129,7 +129,7 @@ theorem kept_facts (pc k : Nat) (g : Group) (hrel : PcRel L pc k) (hg : (groups 
     have := imap_in_group L pc k g hrel hg 0 (by rw [hkeep]; simp)
     simpa using this
   have hlt : pc < L.length := (List.getElem?_eq_some_iff.mp hget).1
-  refine ⟨vi, hcode, hcode'', ?_, ⟨by rw [hdec.len]; exact hlt, ?_⟩, hfk, ?_⟩
+  refine ⟨vi, hcode, hcode'', ?_, ⟨Or.inl (by rw [hdec.len]; exact hlt), ?_⟩, hfk, ?_⟩
   · intro t ht
     rw [htg] at ht
     have hp := PcRel_target L hT g.out hmem t ht
@@ -215,21 +215,25 @@ theorem runLoop_of_none (rec : VmCtx → Chunk → State → RunRes) (env : Env)
   cases n <;> simp [runLoop, h]
 
 include hname in
-theorem runRel_raise (env : Env) (vm : VmCtx) (f : Nat → Nat) (P : Nat → Nat → Prop) (e e' : RErr) :
-    RunRel C C' f P (raiseRun env vm C e) (raiseRun env vm C' e') := by
+theorem runRel_raise {E : RErr → RErr → Prop} {π : PMap} (env : Env) (vm : VmCtx) (f : Nat → Nat)
+    (P : Nat → Nat → Prop) (e e' : RErr) (h : E e e') :
+    RunRelG E π C C' f P (raiseRun env vm C e) (raiseRun env vm C' e') := by
   have : reportTargetOk env vm C' = reportTargetOk env vm C := by simp [reportTargetOk, hname]
   simp only [raiseRun, this]
-  cases reportTargetOk env vm C <;> exact True.intro
+  cases reportTargetOk env vm C <;> first | exact h | exact True.intro
 
 include hD hT hS hO hname hdec hdec' in
 /-- Forward simulation: whatever the original chunk's loop returns within `n` turns (other than
 running out of fuel), the optimised chunk's loop returns the related result within `n` turns. -/
-theorem sim_forward {rec rec' : VmCtx → Chunk → State → RunRes} (env : Env) (vm : VmCtx)
-    (hrec : RecOK rec rec' C C' (imapFn L) (PcRel L)) :
+theorem sim_forwardG {E : RErr → RErr → Prop} {π : PMap} (hE : ∀ e, E e e)
+    (hU : ∀ e e', isUndefErr e = true → isUndefErr e' = true → E e e')
+    {rec rec' : VmCtx → Chunk → State → RunRes} (env : Env) (vm : VmCtx)
+    (hrec : FreshOK E π rec rec' C C' (imapFn L) (PcRel L))
+    (hbl : (∃ e ∈ C.code, isBlockCall e.1 = true) → BlockOK E π rec rec' C C' (imapFn L) (PcRel L)) :
     ∀ (n pc k : Nat) (st : State), PcRel L pc k → GoodState C C' (imapFn L) (PcRel L) st →
       runLoop rec env vm C n pc st ≠ .outOfFuel →
-      ∃ m, m ≤ n ∧ RunRel C C' (imapFn L) (PcRel L) (runLoop rec env vm C n pc st)
-        (runLoop rec' env vm C' m k (mapState (imapFn L) st)) := by
+      ∃ m, m ≤ n ∧ RunRelG E π C C' (imapFn L) (PcRel L) (runLoop rec env vm C n pc st)
+        (runLoop rec' env vm C' m k (mapStateP (imapFn L) π st)) := by
   intro n
   induction n using Nat.strongRecOn with
   | _ n ih =>
@@ -257,14 +261,15 @@ theorem sim_forward {rec rec' : VmCtx → Chunk → State → RunRes} (env : Env
       cases n with
       | zero => exact absurd (runLoop_zero_some rec env vm C st hcode) hne
       | succ n =>
-        have hstep : StepRel C C' (imapFn L) (PcRel L) (step rec env vm C (vi, g.out.2) pc st)
-            (step rec' env vm C' (vmapTarget (imapFn L) vi, g.out.2) k (mapState (imapFn L) st)) :=
-          step_kept hR hrec (imapFn_zero L) (PcRel_zero L) hgood hfk hnext' hspat env vm hst (vi, g.out.2) htg
+        have hstep : StepRelG E π C C' (imapFn L) (PcRel L) (step rec env vm C (vi, g.out.2) pc st)
+            (step rec' env vm C' (vmapTarget (imapFn L) vi, g.out.2) k (mapStateP (imapFn L) π st)) :=
+          step_keptG hE hR hrec (imapFn_zero L) (PcRel_zero L) hgood hfk hnext' hspat env vm hst (vi, g.out.2) htg
+            (fun hb => hbl ⟨(vi, g.out.2), List.mem_of_getElem? hcode, hb⟩)
         simp only [runLoop, hcode] at hne ⊢
         revert hstep hne
         cases hs : step rec env vm C (vi, g.out.2) pc st with
         | next p s1 =>
-          cases hs' : step rec' env vm C' (vmapTarget (imapFn L) vi, g.out.2) k (mapState (imapFn L) st) with
+          cases hs' : step rec' env vm C' (vmapTarget (imapFn L) vi, g.out.2) k (mapStateP (imapFn L) π st) with
           | next p' s' =>
             intro hstep hne
             obtain ⟨hP, rfl, hgs⟩ := hstep
@@ -279,12 +284,12 @@ theorem sim_forward {rec rec' : VmCtx → Chunk → State → RunRes} (env : Env
           refine ⟨1, by omega, ?_⟩
           simp only [runLoop, hcode']
           revert hstep
-          cases step rec' env vm C' (vmapTarget (imapFn L) vi, g.out.2) k (mapState (imapFn L) st) <;>
-            intro hstep <;> first | exact hstep.elim | exact True.intro
+          cases step rec' env vm C' (vmapTarget (imapFn L) vi, g.out.2) k (mapStateP (imapFn L) π st) <;>
+            intro hstep <;> first | exact hstep.elim | exact True.intro | exact hstep
     · -- a fused group
       have hshape := groups_shape L g (List.mem_of_getElem? hg)
       have hopt := optCode_get L k g hg
-      have hv0 : ∀ n0, (mapState (imapFn L) st).scope.getValue n0 = st.scope.getValue n0 := by
+      have hv0 : ∀ n0, (mapStateP (imapFn L) π st).scope.getValue n0 = st.scope.getValue n0 := by
         intro n0; simp
       cases hshape with
       | keep e => exact absurd rfl hkeep
@@ -305,7 +310,7 @@ theorem sim_forward {rec rec' : VmCtx → Chunk → State → RunRes} (env : Env
         have hfk : imapFn L (pc + taken.length) = k :=
           imap_in_group L pc k _ hrel hg taken.length (by simp)
         have hgd : Good C C' (imapFn L) (pc + taken.length) := by
-          refine ⟨?_, ?_⟩
+          refine ⟨Or.inl ?_, ?_⟩
           · have := hnextrel.2.2
             simp only [List.length_cons, List.length_map] at this
             rw [hdec.len]; omega
@@ -315,7 +320,7 @@ theorem sim_forward {rec rec' : VmCtx → Chunk → State → RunRes} (env : Env
             | cons _ _ => rfl
         have hgrp := load_group_run rec env vm C st pc n0 s taken hn0 hc0 hcj hsp
         have hfus := fused_load env vm C' k n0 (taken.map (·.1)) (by simpa using hne0) hspAt
-          (mapState (imapFn L) st)
+          (mapStateP (imapFn L) π st)
         rw [hv0] at hfus
         cases hw : walkVals (st.scope.getValue n0) (taken.map (·.1)) with
         | some v =>
@@ -334,22 +339,22 @@ theorem sim_forward {rec rec' : VmCtx → Chunk → State → RunRes} (env : Env
             obtain ⟨m, hm, hrr⟩ := ih n1 (by omega) _ _ _ hrel1 hgood1 hne
             refine ⟨m + 1, by omega, ?_⟩
             rw [runLoop_succ_next rec' env vm C' m hcode' (by simp only [Vm.step]; exact hfus.1 v hw)]
-            have e : (mapState (imapFn L) st).push v (k, k)
-                = mapState (imapFn L) (st.push v (pc + taken.length, pc + taken.length)) := by
-              simp [State.push, mapState, mapSlot, mapSpan, hfk]
+            have e : (mapStateP (imapFn L) π st).push v (k, k)
+                = mapStateP (imapFn L) π (st.push v (pc + taken.length, pc + taken.length)) := by
+              simp [State.push, mapStateP, mapSlot, mapSpan, hfk]
             rw [e]; exact hrr
         | none =>
           obtain ⟨ha, _⟩ := hgrp.2 hw
-          rcases ha n with h0 | ⟨e, he⟩
+          rcases ha n with h0 | ⟨e, he, hu⟩
           · exact absurd h0 hne
-          · obtain ⟨e', he'⟩ := hfus.2 hw
+          · obtain ⟨e', he', hu'⟩ := hfus.2 hw
             have hn1 : 1 ≤ n := by
               cases n with
               | zero => exact absurd (runLoop_zero_some rec env vm C st hc0) hne
               | succ n => omega
             refine ⟨1, hn1, ?_⟩
             rw [he, runLoop_succ_raise rec' env vm C' 0 hcode' (by simp only [Vm.step]; exact he')]
-            exact runRel_raise C C' hname env vm _ _ e e'
+            exact runRel_raise C C' hname env vm _ _ e e' (hU e e' hu hu')
       | write n0 s w taken hn0 =>
         simp only at hdrop hnextrel hopt
         have hdrop' : L.drop pc = ((Instr.loadName n0, s) :: taken.map attrEntry) ++
@@ -381,24 +386,24 @@ theorem sim_forward {rec rec' : VmCtx → Chunk → State → RunRes} (env : Env
           simp only [List.length_map] at hj
           simp only [List.length_append, decide_eq_true_eq]; omega
         have hgrp := write_group_run rec env vm C st pc n0 s w taken hn0 hc0 hcj hcw hsp
-        have hfus := fused_write env vm C' k n0 (taken.map (·.1)) hn0 hspAt (mapState (imapFn L) st)
+        have hfus := fused_write env vm C' k n0 (taken.map (·.1)) hn0 hspAt (mapStateP (imapFn L) π st)
         rw [hv0] at hfus
         have hbad : (walkVals (st.scope.getValue n0) (taken.map (·.1)) = none ∨
             ∃ v, walkVals (st.scope.getValue n0) (taken.map (·.1)) = some v ∧ v.isUndef = true) →
-            ∃ m, m ≤ n ∧ RunRel C C' (imapFn L) (PcRel L) (runLoop rec env vm C n pc st)
-              (runLoop rec' env vm C' m k (mapState (imapFn L) st)) := by
+            ∃ m, m ≤ n ∧ RunRelG E π C C' (imapFn L) (PcRel L) (runLoop rec env vm C n pc st)
+              (runLoop rec' env vm C' m k (mapStateP (imapFn L) π st)) := by
           intro hw
           obtain ⟨ha, _⟩ := hgrp.2 hw
-          rcases ha n with h0 | ⟨e, he⟩
+          rcases ha n with h0 | ⟨e, he, hu⟩
           · exact absurd h0 hne
-          · obtain ⟨e', he'⟩ := hfus.2 hw
+          · obtain ⟨e', he', hu'⟩ := hfus.2 hw
             have hn1 : 1 ≤ n := by
               cases n with
               | zero => exact absurd (runLoop_zero_some rec env vm C st hc0) hne
               | succ n => omega
             refine ⟨1, hn1, ?_⟩
             rw [he, runLoop_succ_raise rec' env vm C' 0 hcode' (by simp only [Vm.step]; exact he')]
-            exact runRel_raise C C' hname env vm _ _ e e'
+            exact runRel_raise C C' hname env vm _ _ e e' (hU e e' hu hu')
         cases hw : walkVals (st.scope.getValue n0) (taken.map (·.1)) with
         | none => exact hbad (Or.inl hw)
         | some v =>
@@ -427,12 +432,15 @@ theorem sim_forward {rec rec' : VmCtx → Chunk → State → RunRes} (env : Env
 include hD hT hS hO hname hdec hdec' in
 /-- Backward simulation: whatever the optimised chunk's loop returns within `m` turns (other than
 running out of fuel), the original chunk's loop returns the related result given enough turns. -/
-theorem sim_backward {rec rec' : VmCtx → Chunk → State → RunRes} (env : Env) (vm : VmCtx)
-    (hrec : RecOK rec rec' C C' (imapFn L) (PcRel L)) :
+theorem sim_backwardG {E : RErr → RErr → Prop} {π : PMap} (hE : ∀ e, E e e)
+    (hU : ∀ e e', isUndefErr e = true → isUndefErr e' = true → E e e')
+    {rec rec' : VmCtx → Chunk → State → RunRes} (env : Env) (vm : VmCtx)
+    (hrec : FreshOK E π rec rec' C C' (imapFn L) (PcRel L))
+    (hbl : (∃ e ∈ C.code, isBlockCall e.1 = true) → BlockOK E π rec rec' C C' (imapFn L) (PcRel L)) :
     ∀ (m pc k : Nat) (st : State), PcRel L pc k → GoodState C C' (imapFn L) (PcRel L) st →
-      runLoop rec' env vm C' m k (mapState (imapFn L) st) ≠ .outOfFuel →
-      ∃ n, RunRel C C' (imapFn L) (PcRel L) (runLoop rec env vm C n pc st)
-        (runLoop rec' env vm C' m k (mapState (imapFn L) st)) := by
+      runLoop rec' env vm C' m k (mapStateP (imapFn L) π st) ≠ .outOfFuel →
+      ∃ n, RunRelG E π C C' (imapFn L) (PcRel L) (runLoop rec env vm C n pc st)
+        (runLoop rec' env vm C' m k (mapStateP (imapFn L) π st)) := by
   intro m
   induction m with
   | zero =>
@@ -472,12 +480,13 @@ theorem sim_backward {rec rec' : VmCtx → Chunk → State → RunRes} (env : En
     · obtain ⟨vi, hcode, hcode', htg, hgood, hfk, hspat⟩ :=
         kept_facts dec hD L hT hO C C' hdec hdec' pc k g hrel hg hdrop hkeep
       have hnext' : PcRel L (pc + 1) (k + 1) := by rw [hkeep] at hnextrel; simpa using hnextrel
-      have hstep : StepRel C C' (imapFn L) (PcRel L) (Vm.step rec env vm C (vi, g.out.2) pc st)
-          (Vm.step rec' env vm C' (vmapTarget (imapFn L) vi, g.out.2) k (mapState (imapFn L) st)) :=
-        step_kept hR hrec (imapFn_zero L) (PcRel_zero L) hgood hfk hnext' hspat env vm hst (vi, g.out.2) htg
+      have hstep : StepRelG E π C C' (imapFn L) (PcRel L) (Vm.step rec env vm C (vi, g.out.2) pc st)
+          (Vm.step rec' env vm C' (vmapTarget (imapFn L) vi, g.out.2) k (mapStateP (imapFn L) π st)) :=
+        step_keptG hE hR hrec (imapFn_zero L) (PcRel_zero L) hgood hfk hnext' hspat env vm hst (vi, g.out.2) htg
+            (fun hb => hbl ⟨(vi, g.out.2), List.mem_of_getElem? hcode, hb⟩)
       simp only [runLoop, hcode'] at hne ⊢
       revert hstep hne
-      cases hs' : Vm.step rec' env vm C' (vmapTarget (imapFn L) vi, g.out.2) k (mapState (imapFn L) st) with
+      cases hs' : Vm.step rec' env vm C' (vmapTarget (imapFn L) vi, g.out.2) k (mapStateP (imapFn L) π st) with
       | next p' s' =>
         cases hs : Vm.step rec env vm C (vi, g.out.2) pc st with
         | next p s1 =>
@@ -495,10 +504,10 @@ theorem sim_backward {rec rec' : VmCtx → Chunk → State → RunRes} (env : En
         simp only [runLoop, hcode]
         revert hstep
         cases Vm.step rec env vm C (vi, g.out.2) pc st <;>
-          intro hstep <;> first | exact hstep.elim | exact True.intro
+          intro hstep <;> first | exact hstep.elim | exact True.intro | exact hstep
     · have hshape := groups_shape L g (List.mem_of_getElem? hg)
       have hopt := optCode_get L k g hg
-      have hv0 : ∀ n0, (mapState (imapFn L) st).scope.getValue n0 = st.scope.getValue n0 := by
+      have hv0 : ∀ n0, (mapStateP (imapFn L) π st).scope.getValue n0 = st.scope.getValue n0 := by
         intro n0; simp
       cases hshape with
       | keep e => exact absurd rfl hkeep
@@ -519,7 +528,7 @@ theorem sim_backward {rec rec' : VmCtx → Chunk → State → RunRes} (env : En
         have hfk : imapFn L (pc + taken.length) = k :=
           imap_in_group L pc k _ hrel hg taken.length (by simp)
         have hgd : Good C C' (imapFn L) (pc + taken.length) := by
-          refine ⟨?_, ?_⟩
+          refine ⟨Or.inl ?_, ?_⟩
           · have := hnextrel.2.2
             simp only [List.length_cons, List.length_map] at this
             rw [hdec.len]; omega
@@ -529,14 +538,14 @@ theorem sim_backward {rec rec' : VmCtx → Chunk → State → RunRes} (env : En
             | cons _ _ => rfl
         have hgrp := load_group_run rec env vm C st pc n0 s taken hn0 hc0 hcj hsp
         have hfus := fused_load env vm C' k n0 (taken.map (·.1)) (by simpa using hne0) hspAt
-          (mapState (imapFn L) st)
+          (mapStateP (imapFn L) π st)
         rw [hv0] at hfus
         cases hw : walkVals (st.scope.getValue n0) (taken.map (·.1)) with
         | some v =>
           obtain ⟨_, hb⟩ := hgrp.1 v hw
-          have e : (mapState (imapFn L) st).push v (k, k)
-              = mapState (imapFn L) (st.push v (pc + taken.length, pc + taken.length)) := by
-            simp [State.push, mapState, mapSlot, mapSpan, hfk]
+          have e : (mapStateP (imapFn L) π st).push v (k, k)
+              = mapStateP (imapFn L) π (st.push v (pc + taken.length, pc + taken.length)) := by
+            simp [State.push, mapStateP, mapSlot, mapSpan, hfk]
           rw [runLoop_succ_next rec' env vm C' m hcode' (by simp only [Vm.step]; exact hfus.1 v hw), e] at hne ⊢
           have hgood1 : GoodState C C' (imapFn L) (PcRel L)
               (st.push v (pc + taken.length, pc + taken.length)) :=
@@ -550,11 +559,11 @@ theorem sim_backward {rec rec' : VmCtx → Chunk → State → RunRes} (env : En
           rw [hb n1]; exact hrr
         | none =>
           obtain ⟨_, hb⟩ := hgrp.2 hw
-          obtain ⟨e, he⟩ := hb (taken.length + 1) (Nat.le_refl _)
-          obtain ⟨e', he'⟩ := hfus.2 hw
+          obtain ⟨e, he, hu⟩ := hb (taken.length + 1) (Nat.le_refl _)
+          obtain ⟨e', he', hu'⟩ := hfus.2 hw
           refine ⟨taken.length + 1, ?_⟩
           rw [he, runLoop_succ_raise rec' env vm C' m hcode' (by simp only [Vm.step]; exact he')]
-          exact runRel_raise C C' hname env vm _ _ e e'
+          exact runRel_raise C C' hname env vm _ _ e e' (hU e e' hu hu')
       | write n0 s w taken hn0 =>
         simp only at hdrop hnextrel hopt
         have hdrop' : L.drop pc = ((Instr.loadName n0, s) :: taken.map attrEntry) ++
@@ -586,19 +595,19 @@ theorem sim_backward {rec rec' : VmCtx → Chunk → State → RunRes} (env : En
           simp only [List.length_map] at hj
           simp only [List.length_append, decide_eq_true_eq]; omega
         have hgrp := write_group_run rec env vm C st pc n0 s w taken hn0 hc0 hcj hcw hsp
-        have hfus := fused_write env vm C' k n0 (taken.map (·.1)) hn0 hspAt (mapState (imapFn L) st)
+        have hfus := fused_write env vm C' k n0 (taken.map (·.1)) hn0 hspAt (mapStateP (imapFn L) π st)
         rw [hv0] at hfus
         have hbad : (walkVals (st.scope.getValue n0) (taken.map (·.1)) = none ∨
             ∃ v, walkVals (st.scope.getValue n0) (taken.map (·.1)) = some v ∧ v.isUndef = true) →
-            ∃ n, RunRel C C' (imapFn L) (PcRel L) (runLoop rec env vm C n pc st)
-              (runLoop rec' env vm C' (m + 1) k (mapState (imapFn L) st)) := by
+            ∃ n, RunRelG E π C C' (imapFn L) (PcRel L) (runLoop rec env vm C n pc st)
+              (runLoop rec' env vm C' (m + 1) k (mapStateP (imapFn L) π st)) := by
           intro hw
           obtain ⟨_, hb⟩ := hgrp.2 hw
-          obtain ⟨e, he⟩ := hb (taken.length + 2) (Nat.le_refl _)
-          obtain ⟨e', he'⟩ := hfus.2 hw
+          obtain ⟨e, he, hu⟩ := hb (taken.length + 2) (Nat.le_refl _)
+          obtain ⟨e', he', hu'⟩ := hfus.2 hw
           refine ⟨taken.length + 2, ?_⟩
           rw [he, runLoop_succ_raise rec' env vm C' m hcode' (by simp only [Vm.step]; exact he')]
-          exact runRel_raise C C' hname env vm _ _ e e'
+          exact runRel_raise C C' hname env vm _ _ e e' (hU e e' hu hu')
         cases hw : walkVals (st.scope.getValue n0) (taken.map (·.1)) with
         | none => exact hbad (Or.inl hw)
         | some v =>
@@ -618,6 +627,36 @@ theorem sim_backward {rec rec' : VmCtx → Chunk → State → RunRes} (env : En
             obtain ⟨n1, hrr⟩ := ih _ _ _ hrel1 hgood1 hne
             refine ⟨n1 + (taken.length + 2), ?_⟩
             rw [hb n1]; exact hrr
+
+include hD hT hS hO hname hdec hdec' in
+/-- `sim_forwardG` without an error relation -/
+theorem sim_forward {rec rec' : VmCtx → Chunk → State → RunRes} (env : Env) (vm : VmCtx)
+    (hrec : RecOK rec rec' C C' (imapFn L) (PcRel L)) :
+    ∀ (n pc k : Nat) (st : State), PcRel L pc k → GoodState C C' (imapFn L) (PcRel L) st →
+      runLoop rec env vm C n pc st ≠ .outOfFuel →
+      ∃ m, m ≤ n ∧ RunRel C C' (imapFn L) (PcRel L) (runLoop rec env vm C n pc st)
+        (runLoop rec' env vm C' m k (mapState (imapFn L) st)) := by
+  intro n pc k st hrel hst hne
+  obtain ⟨m, hm, h⟩ := sim_forwardG dec hD L hT hS hO C C' hname hdec hdec' (E := fun _ _ => True) (π := idP)
+    (fun _ => True.intro) (fun _ _ _ _ => True.intro) env vm (RecOKG.of_true hrec).fresh
+    (fun _ => (RecOKG.of_true hrec).blockOK) n pc k st hrel hst hne
+  rw [mapStateP_id] at h
+  exact ⟨m, hm, h.weaken⟩
+
+include hD hT hS hO hname hdec hdec' in
+/-- `sim_backwardG` without an error relation -/
+theorem sim_backward {rec rec' : VmCtx → Chunk → State → RunRes} (env : Env) (vm : VmCtx)
+    (hrec : RecOK rec rec' C C' (imapFn L) (PcRel L)) :
+    ∀ (m pc k : Nat) (st : State), PcRel L pc k → GoodState C C' (imapFn L) (PcRel L) st →
+      runLoop rec' env vm C' m k (mapState (imapFn L) st) ≠ .outOfFuel →
+      ∃ n, RunRel C C' (imapFn L) (PcRel L) (runLoop rec env vm C n pc st)
+        (runLoop rec' env vm C' m k (mapState (imapFn L) st)) := by
+  intro m pc k st hrel hst hne
+  obtain ⟨n, h⟩ := sim_backwardG dec hD L hT hS hO C C' hname hdec hdec' (E := fun _ _ => True) (π := idP)
+    (fun _ => True.intro) (fun _ _ _ _ => True.intro) env vm (RecOKG.of_true hrec).fresh
+    (fun _ => (RecOKG.of_true hrec).blockOK) m pc k st hrel hst (by rw [mapStateP_id]; exact hne)
+  rw [mapStateP_id] at h
+  exact ⟨n, h.weaken⟩
 
 /-- more turns do not change a result that is not "out of fuel" -/
 theorem runLoop_mono (rec : VmCtx → Chunk → State → RunRes) (env : Env) (vm : VmCtx) (c : Chunk) :
